@@ -48,6 +48,85 @@ def _dm(cols, order=None):
     return dm
 
 
+# numpy prints only 8 significant digits and elides the middle of arrays with more than 1000 elements
+LONG_N = 1100
+LONG_SERIES_N = 340       # depth 3
+DM_NUMERIC = list(range(60, 80))
+DM_NEAR_PAIRS = [(60, 61), (62, 63), (62, 64), (30, 62), (65, 66), (67, 68), (69, 70), (71, 72), (73, 74), (75, 76),
+                 (77, 78), (60, 79)]
+DM_LONG = (69, 70, 71, 72, 73, 74)
+# classes whose body result is falsy or otherwise unusual (see SPECIAL): the argument list names the result
+RET = '__ret__'
+SPECIAL_BASES = list(range(80, 94))
+
+
+def _tdm(kind, vals, name='x'):
+    """a table with one IntColumn / FloatColumn / SeriesColumn"""
+    import numpy as np
+    from datamatrix import DataMatrix, FloatColumn, IntColumn, SeriesColumn
+    dm = DataMatrix(length=len(vals))
+    if kind == 'series':
+        dm[name] = SeriesColumn(depth=len(vals[0]))
+        dm[name][:] = np.array(vals, dtype=float)
+    else:
+        dm[name] = IntColumn if kind == 'int' else FloatColumn
+        dm[name] = vals
+    return dm
+
+
+_LONG = []
+
+
+def _long_tables():
+    """the tables of more than 1000 cells, built once per process (neither memoize nor the body changes an argument)"""
+    if not _LONG:
+        n, m = LONG_N, LONG_SERIES_N
+        long_int = list(range(n))
+        long_int2 = list(long_int)
+        long_int2[n // 2] = -1
+        long_fl = [i * 0.5 for i in range(n)]
+        long_fl2 = list(long_fl)
+        long_fl2[n // 2] += 1e-9
+        long_se = [[float(i % 10), 0.5, 1.0] for i in range(m)]
+        long_se2 = [list(r) for r in long_se]
+        long_se2[m // 2][1] += 1.0
+        _LONG.extend([_tdm('int', long_int), _tdm('int', long_int2), _tdm('float', long_fl), _tdm('float', long_fl2),
+                      _tdm('series', long_se), _tdm('series', long_se2)])
+    return _LONG
+
+
+def _special():
+    """tag -> function that builds the result (a new object per call)"""
+    from datamatrix import DataMatrix
+    return {
+        'none': lambda: None, 'zero': lambda: 0, 'empty_str': lambda: '', 'empty_list': lambda: [],
+        'false': lambda: False, 'nan': lambda: float('nan'), 'zero_float': lambda: 0.0, 'empty_dict': lambda: {},
+        'empty_tuple': lambda: (), 'empty_dm': lambda: DataMatrix(length=0), 'tuple_none': lambda: (None, 0),
+        'empty_bytes': lambda: b'', 'list_none': lambda: [None], 'true': lambda: True,
+    }
+
+
+SPECIAL_TAGS = ['none', 'zero', 'empty_str', 'empty_list', 'false', 'nan', 'zero_float', 'empty_dict', 'empty_tuple',
+                'empty_dm', 'tuple_none', 'empty_bytes', 'list_none', 'true']
+assert len(SPECIAL_TAGS) == len(SPECIAL_BASES)
+
+
+def plain_body(args, kwargs):
+    """the unwrapped body: a description of its arguments, or -- for the argument lists (RET, tag) -- the falsy /
+    unusual value the tag names"""
+    if len(args) == 2 and not kwargs and isinstance(args[0], str) and args[0] == RET and args[1] in SPECIAL_TAGS:
+        return _special()[args[1]]()
+    return ['R', canon(args), canon(kwargs)]
+
+
+def vdesc(obj):
+    """identification of a returned value: type and content (0 / 0.0 / False, () / [] and NaN are told apart)"""
+    from datamatrix import DataMatrix
+    if isinstance(obj, DataMatrix):
+        return 'DataMatrix:' + repr(canon(obj))
+    return type(obj).__name__ + ':' + repr(obj)
+
+
 def bases():
     """base class id -> list of (args, kwargs, flag) forms that the property counts as the same argument list.
     flag 'kwperm' marks a form that differs from form 0 only in keyword/dict insertion order."""
@@ -136,6 +215,39 @@ def bases():
         58: [((), {'p': 1, 'q': 1}, ''), ((), {'q': 1, 'p': 1}, 'kwperm')],
         59: [(({'p': [1], 'q': [1], 'r': (1,)},), {}, ''), (({'r': [1], 'q': (1,), 'p': (1,)},), {}, 'kwperm')],
     }
+    # DataMatrix arguments with NumPy-backed columns (IntColumn / FloatColumn / SeriesColumn): tables that differ
+    # only beyond the 8th significant digit of one cell, only in the column type, only above 2**53, only in a
+    # denormal versus zero, only in one cell in the middle of a column of more than 1000 cells (what an abbreviating printer
+    # such as numpy's repr or str() of the table leaves out)
+    li, li2, lf, lf2, ls, ls2 = _long_tables()
+    B.update({
+        60: [((_tdm('float', [0.1 + 0.2, 1.0]),), {}, ''), ((_tdm('float', [0.1 + 0.2, 1.0]),), {}, '')],
+        61: [((_tdm('float', [0.3, 1.0]),), {}, '')],
+        62: [((_tdm('int', [1, 2], 'a'),), {}, ''), ((_tdm('int', [1, 2], 'a')[:],), {}, '')],
+        63: [((_tdm('int', [1, 3], 'a'),), {}, '')],
+        64: [((_tdm('float', [1.0, 2.0], 'a'),), {}, '')],
+        65: [((_tdm('series', [[0.1 + 0.2, 1.0], [2.0, 3.0]]),), {}, ''),
+             ((_tdm('series', [[0.1 + 0.2, 1.0], [2.0, 3.0]]),), {}, '')],
+        66: [((_tdm('series', [[0.3, 1.0], [2.0, 3.0]]),), {}, '')],
+        67: [((_tdm('int', [2 ** 53, 0]),), {}, '')],
+        68: [((_tdm('int', [2 ** 53 + 1, 0]),), {}, '')],
+        69: [((li,), {}, ''), ((li[:],), {}, '')],
+        70: [((li2,), {}, '')],
+        71: [((lf,), {}, '')],
+        72: [((lf2,), {}, '')],
+        73: [((ls,), {}, '')],
+        74: [((ls2,), {}, '')],
+        75: [((_tdm('float', [float('nan'), 1.0]),), {}, '')],
+        76: [((_tdm('float', [float('inf'), 1.0]),), {}, '')],
+        77: [((_tdm('float', [5e-324, 1.0]),), {}, '')],
+        78: [((_tdm('float', [0.0, 1.0]),), {}, '')],
+        79: [((_tdm('float', [0.1 + 0.2, 1.0], 'y'),), {}, '')],     # (a FloatColumn stores -0.0 as 0.0)
+    })
+    # argument lists whose result is falsy / unusual (None, 0, '', [], False, NaN, 0.0, {}, (), an empty DataMatrix,
+    # a tuple holding None, b'', [None], True)
+    for b, tag in zip(SPECIAL_BASES, SPECIAL_TAGS):
+        B[b] = [((RET, tag), {}, '')]
+    assert all(b < 100 for b in B)
     return B
 
 
@@ -171,7 +283,35 @@ def canon(x):
         return ['dm', len(x)] + [[name, type(col).__name__, [canon(v) for v in col]] for name, col in x.columns]
     if callable(x):
         return ['callable', getattr(x, '__name__', '?')]
+    try:
+        import numpy as np
+        if isinstance(x, np.ndarray):       # a SeriesColumn cell: every element in full precision
+            return ['array', str(x.dtype), list(x.shape)] + [canon(v) for v in x.tolist()]
+        if isinstance(x, np.generic):
+            return ['np', type(x).__name__, canon(x.item())]
+    except ImportError:
+        pass
     return ['other', repr(x)]
+
+
+def _cell_text(v):
+    try:
+        import numpy as np
+        if isinstance(v, np.ndarray):
+            return 'array' + repr(v.tolist())
+        if isinstance(v, np.generic):
+            return type(v).__name__ + repr(v.item())
+    except ImportError:
+        pass
+    return repr(v)
+
+
+def dm_text(x):
+    """The content of a DataMatrix for the L0 relation, independent of convert.to_json and of every printer that
+    abbreviates: length, then per column its name, its type and every cell (repr of the Python scalar: 1 / 1.0 /
+    True / '1' / None / nan differ, floats in full precision; a SeriesColumn cell as the nested list of its floats)."""
+    return 'dm(%d;%s)' % (len(x), ';'.join(
+        '%r:%s:[%s]' % (name, type(col).__name__, ','.join(_cell_text(v) for v in col)) for name, col in x.columns))
 
 
 # ------------------------------------------------------------------ key derivation: literals and accessors
@@ -215,7 +355,7 @@ def in_alphabet(name, args, kwargs):
 
 def arg_lit(x, for_model, floats):
     """Python value -> Spec/MemoKey.arg.  A DataMatrix is its content text: for the L1 model the text of
-    convert.to_json (what the implementation serialises), for the L0 oracle a description built by canon() here,
+    convert.to_json (what the implementation serialises), for the L0 oracle the description dm_text() built here,
     independent of convert.to_json."""
     from datamatrix import DataMatrix, convert as cnv
     if isinstance(x, bool):
@@ -236,7 +376,7 @@ def arg_lit(x, for_model, floats):
             raise ValueError('dict key outside the alphabet')
         return '(ADict %s)' % L.lst('(%s, %s)' % (L.string(k), arg_lit(v, for_model, floats)) for k, v in x.items())
     if isinstance(x, DataMatrix):
-        return '(ADM %s)' % L.string(cnv.to_json(x) if for_model else repr(canon(x)))
+        return '(ADM %s)' % L.string(cnv.to_json(x) if for_model else dm_text(x))
     if callable(x):
         n = getattr(x, '__name__', None)
         return '(AFun %s)' % ('None' if n is None else '(Some %s)' % L.string(n))
@@ -246,6 +386,22 @@ def arg_lit(x, for_model, floats):
 def call_lit(args, kwargs, for_model, floats):
     return '(mkcall %s %s)' % (L.lst(arg_lit(v, for_model, floats) for v in args),
                                L.lst('(%s, %s)' % (L.string(k), arg_lit(v, for_model, floats)) for k, v in kwargs.items()))
+
+
+_EXPECTED = {}
+
+
+def expected_and_sizes(B):
+    """base class -> description of what the unwrapped body returns for form 0, and -> size of its pickle.
+    bases() is deterministic, so this is computed once per process (the long tables make it expensive)."""
+    if not _EXPECTED:
+        exp, sizes = {}, {}
+        for b, forms in B.items():
+            a, k, _ = forms[0]
+            exp[b] = vdesc(plain_body(a, k))
+            sizes[b] = sys.getsizeof(pickle.dumps(plain_body(a, k)))
+        _EXPECTED['exp'], _EXPECTED['sizes'] = exp, sizes
+    return dict(_EXPECTED['exp']), dict(_EXPECTED['sizes'])
 
 
 class World(object):
@@ -261,15 +417,12 @@ class World(object):
 
         def body(*args, **kwargs):
             world.count[0] += 1
-            return ['R', canon(args), canon(kwargs)]
+            return plain_body(args, kwargs)
         self.body = body
         # expected value of the unwrapped body per base class (form 0), and their sizes
-        self.expected = {}
-        self.sizes = {}
-        for b, forms in self.B.items():
-            a, k, _ = forms[0]
-            self.expected[b] = repr(['R', canon(a), canon(k)])
-            self.sizes[b] = sys.getsizeof(pickle.dumps(['R', canon(a), canon(k)]))
+        self.expected, self.sizes = expected_and_sizes(self.B)
+        self.by_desc = {e: b for b, e in self.expected.items()}
+        assert len(self.by_desc) == len(self.expected)
         self.insts = []
         self.opts = []
         self.keymap = World.KEYMAP
@@ -299,10 +452,10 @@ class World(object):
         return os.path.join(self.root, 'f%d' % fid)
 
     def vid(self, obj):
-        for b, e in self.expected.items():
-            if repr(obj) == e:
-                return b
-        return UNKNOWN_VALUE
+        try:
+            return self.by_desc.get(vdesc(obj), UNKNOWN_VALUE)
+        except Exception:       # noqa: BLE001  (an object that cannot even be described is not the expected value)
+            return UNKNOWN_VALUE
 
     def build_keymap(self, g):
         """memkey -> class id for the whole alphabet; checks the key derivation is a function of the class
@@ -353,15 +506,23 @@ class C20:
     rule = ('seeded call histories (4-12 operations quick, 10-40 thorough) over 1-4 memoize instances wrapping one '
             'body: every combination of persistent x key(None/explicit) x lazy x max_size(1 GiB, 0, below one value, '
             '1-4 values) is used as first instance, further instances share or do not share one of 3 temp folders; '
-            'operations: call with one of 60 argument classes (int/float/bool/str/None scalars, positional pairs, '
+            'operations: call with one of 94 argument classes (int/float/bool/str/None scalars, positional pairs, '
             'lists vs tuples (same class), nested containers, dicts, keyword forms and dicts written in several orders '
             '(same class), unicode, strings that need escaping or imitate the separators of the hashed text, -0.0, '
-            'DataMatrix values equal / differing in one cell / one column name / row order / column type / NaN vs None), '
+            'DataMatrix values equal / differing in one cell / one column name / row order / column type / NaN vs None; '
+            'DataMatrix values with IntColumn / FloatColumn / SeriesColumn (NumPy-backed) columns in nearly equal pairs: '
+            '0.1+0.2 vs 0.3, 2**53 vs 2**53+1, 5e-324 vs 0.0, NaN vs inf, IntColumn vs FloatColumn vs MixedColumn of '
+            'equal numbers, one cell in the middle of a column of 1100 cells (int, float) or of a 340x3 series; '
+            '14 argument lists for which the body returns a falsy / unusual value: None, 0, \'\', [], False, NaN, 0.0, '
+            '{}, (), an empty DataMatrix, (None, 0), b\'\', [None], True -- in every option combination, in the '
+            'persist / clear / fifo scenarios and in a scenario with a second instance on the same or another folder), '
             'thunk variants in lazy instances, clear(), new instance (constructed directly or through '
             'memoize(**options)(fnc)); the returned object is mutated after every call (isolation). Observed per call: '
             'value id, execution-counter delta, thunk-counter delta, _cache keys in order, cache_size, files of the '
             'folder. non-trivial = the history contains a hit and a run; distinct by (options, operations). '
-            'Key derivation: for every class, form and thunk variant (174 argument lists) the text hashed by _memkey '
+            'Key derivation: for every class (but the 6 tables of more than 1000 cells, whose texts exceed what a Coq '
+            'string literal can hold: they are compared pairwise at L0 only, same key iff same table, and enter the '
+            'histories), form and thunk variant (250 argument lists) the text hashed by _memkey '
             '(recomputed with the instance\'s own serialisers, its md5 compared with _memkey) is compared with the text '
             'the L1 model computes inside Coq, and key equality is compared with the L0 relation "same argument list" '
             'for all pairs at once and for every form against form 0 of its class')
@@ -371,7 +532,8 @@ class C20:
         '_serialize_obj (dispatch chain), the sort key of _serialize_kwargs, the list hashed by _memkey '
         '-> Gen/KMemo.v incl. its pinned statements (effects, comprehensions, json_tricks.dumps / to_json / repr / md5 calls)',
         'harness/c20.py (runner, value/key identification, isolation probe, literals of the argument lists, the '
-        'accessor that recomputes the hashed text, canon() as the content of a DataMatrix for the L0 relation), '
+        'accessor that recomputes the hashed text, dm_text() as the content of a DataMatrix for the L0 relation, '
+        'vdesc() = type name + repr as the identity of a returned value), '
         'Run/SC20.v, Run/RC20.v',
         'modelled, not verified (tied by the correspondence on every argument class): what callable / isinstance / '
         'hasattr answer for the objects of the alphabet, json.dumps on scalars (float.__repr__ is supplied by the '
@@ -394,10 +556,13 @@ class C20:
         'names, function name, JSON text of a DataMatrix) is printable ASCII 32..126, quote characters and '
         'backslash included; finite floats; dict keys are strings; callable names are identifiers other than true / '
         'false / null / __nameless__. Strings with control or non-ASCII characters are inside the model and the '
-        'correspondence (5 of the 174 argument lists), not inside the injectivity proof; json.dumps writes a lone '
+        'correspondence (5 of the 250 argument lists), not inside the injectivity proof; json.dumps writes a lone '
         'surrogate pair and the astral character alike (a genuine collision outside the alphabet)',
         'a DataMatrix enters the L0 relation by its content as described by the harness (length, column names in '
-        'order, column types, cells) and the L1 model by the text of convert.to_json (which also holds the row ids)',
+        'order, column types, cells; every cell by the repr of its Python scalar, a series cell by the list of its floats: '
+        'no printer that abbreviates) and the L1 model by the text of convert.to_json (which also holds the row ids)',
+        'a returned value is identified by its type name and repr (a DataMatrix by its content): results that differ only '
+        'in object identity or in the payload of a NaN are one value',
         'a non-persistent instance sharing a folder with persistent ones deletes the file of the re-executed key on '
         'clear(): modelled (L0 and L1) as the implementation does it',
     ]
@@ -462,11 +627,22 @@ class C20:
                     if ran not in (0, 1):
                         pyfail.append('body executed %d times in one call' % ran)
                     # isolation probe: mutate what was returned
-                    try:
-                        r.append('mutated')
-                        r[1].append('mutated')
-                    except Exception as e:
-                        pyfail.append('returned object is not the plain list the body built: %r' % (e,))
+                    if v in SPECIAL_BASES:      # (with an explicit key: whatever class was stored first)
+                        try:
+                            if isinstance(r, list):
+                                r.append('mutated')
+                            elif isinstance(r, dict):
+                                r['mutated'] = 1
+                            elif type(r).__name__ == 'DataMatrix':
+                                r.mutated = 1
+                        except Exception:       # noqa: BLE001  (a wrong result was identified by vid above)
+                            pass
+                    else:
+                        try:
+                            r.append('mutated')
+                            r[1].append('mutated')
+                        except Exception as e:
+                            pyfail.append('returned object is not the plain list the body built: %r' % (e,))
                     keys = [w.keymap.get(mk, UNKNOWN_KEY) for mk in g._cache.keys()]
                     cs = g.cache_size
                     if len(g._cache) != len(keys):
@@ -483,7 +659,9 @@ class C20:
                     observed.append(['call', v, ran, forced, keys, cs, files])
         finally:
             shutil.rmtree(root, ignore_errors=True)
-        sizes = L.lst('(%d, %d)' % (b, s) for b, s in sorted(w.sizes.items()))
+        # sizes of the values this history can store or return (the other value ids are not referred to)
+        used = {op[2] % 100 for op in ops if op[0] == 'call'}
+        sizes = L.lst('(%d, %d)' % (b, s) for b, s in sorted(w.sizes.items()) if b in used)
         return trace, observed, sizes, pyfail, w.evicted
 
     @staticmethod
@@ -553,6 +731,14 @@ class C20:
             pool_b += [7, 9, 5, 6]
         if rng.random() < 0.3:
             pool_b += [10, 11, 12, 13, 14, 15]
+        # NumPy-backed tables that are nearly equal (both members of a pair), falsy / unusual results
+        if rng.random() < 0.3:
+            for pair in rng.sample(DM_NEAR_PAIRS, 2):
+                pool_b += list(pair)
+        if rng.random() < 0.35:
+            pool_b += rng.sample(SPECIAL_BASES, rng.randint(1, 3))
+            if rng.random() < 0.5:
+                pool_b.append(SPECIAL_BASES[0])         # None: what a lookup returns for "nothing there"
         n = rng.randint(4, maxlen)
         while len(ops) < n:
             r = rng.random()
@@ -598,10 +784,7 @@ class C20:
     def _prepare(self):
         from datamatrix import DataMatrix  # noqa: F401
         self._B = bases()
-        self._sizes = {}
-        for b, forms in self._B.items():
-            a, k, _ = forms[0]
-            self._sizes[b] = sys.getsizeof(pickle.dumps(['R', canon(a), canon(k)]))
+        self._sizes = expected_and_sizes(self._B)[1]
 
     def generate(self, rng, tier):
         self._prepare()
@@ -686,7 +869,36 @@ class C20:
     def _scenario(self, rng):
         bs = sorted(self._B)
         a, b, c = rng.sample(bs, 3)
-        kind = rng.choice(['persist', 'clear', 'fifo', 'xkey', 'lazy', 'equal-forms', 'dm'])
+        kind = rng.choice(['persist', 'clear', 'fifo', 'xkey', 'lazy', 'equal-forms', 'dm', 'dm-near', 'falsy', 'falsy'])
+        if kind == 'falsy' or (kind in ('persist', 'clear', 'fifo') and rng.random() < 0.3):
+            # the same scenarios on argument lists whose result is None / 0 / '' / [] / False / NaN / ...
+            a, b, c = rng.sample(SPECIAL_BASES, 3)
+            if rng.random() < 0.4 and SPECIAL_BASES[0] not in (b, c):
+                a = SPECIAL_BASES[0]        # None
+        if kind == 'falsy':
+            # every option combination, a second instance on the same folder, clear()
+            sz = self._sizes
+            o = {'persistent': rng.random() < 0.6, 'key': rng.choice([None, None, None, 'k1']), 'lazy': rng.random() < 0.3,
+                 'max_size': rng.choice([ONE_GIGABYTE, ONE_GIGABYTE, sz[a] + sz[b], sz[a] + sz[b] + sz[c], sz[a]]),
+                 'folder': rng.randint(0, 2)}
+            t = 100 * rng.randint(0, 2) if o['lazy'] else 0
+            o2 = dict(o, via='decorator')
+            if rng.random() < 0.3:
+                o2['folder'] = (o['folder'] + 1) % 3
+            return [['new', o], ['call', 0, a + t, 0], ['call', 0, a + t, 0], ['call', 0, b, 0], ['call', 0, a, 0],
+                    ['new', o2], ['call', 1, a, 0], ['call', 1, b + t, 0], ['call', 1, c, 0], ['call', 0, c, 0],
+                    ['clear', 1], ['call', 1, a, 0], ['call', 1, a, 0], ['call', 0, a, 0], ['call', 0, b, 0]]
+        if kind == 'dm-near':
+            # tables that differ in what an abbreviating printer leaves out: every pair, both orders
+            o = {'persistent': rng.random() < 0.5, 'key': None, 'lazy': rng.random() < 0.25, 'max_size': ONE_GIGABYTE,
+                 'folder': 1}
+            ops = [['new', o]]
+            for x, y in rng.sample(DM_NEAR_PAIRS, 4):
+                if rng.random() < 0.5:
+                    x, y = y, x
+                t = 100 if o['lazy'] and rng.random() < 0.5 else 0
+                ops += [['call', 0, x + t, 0], ['call', 0, y + t, rng.randint(0, 1)], ['call', 0, x, rng.randint(0, 1)]]
+            return ops
         if kind == 'persist':
             o = {'persistent': True, 'key': None, 'lazy': False, 'max_size': ONE_GIGABYTE, 'folder': 1}
             return [['new', o], ['call', 0, a, 0], ['call', 0, b, 0], ['new', dict(o, via='decorator')],
@@ -722,7 +934,7 @@ class C20:
             return ops
         o = {'persistent': rng.random() < 0.5, 'key': None, 'lazy': False, 'max_size': ONE_GIGABYTE, 'folder': 1}
         ops = [['new', o]]
-        for x in rng.sample([30, 31, 32, 33, 34, 35, 36, 37, 30, 31, 33, 30, 31, 33, 34, 35], 10):
+        for x in rng.sample([30, 31, 32, 33, 34, 35, 36, 37, 30, 31, 33, 30, 31, 33, 34, 35, 60, 61, 62, 63, 64, 36], 10):
             ops.append(['call', 0, x, rng.randint(0, 2)])
         return ops
 
@@ -763,6 +975,8 @@ class C20:
     def _key_forms(w):
         out = []
         for b in sorted(w.B):
+            if b in DM_LONG:        # their texts are too long for Coq string literals: see _long_pair_cases
+                continue
             forms = w.B[b]
             for t in range(0, min(2, len(forms[0][0])) + 1):
                 for fi in range(len(forms)):
@@ -838,7 +1052,14 @@ class C20:
         w, g = self._key_world()
         cases = [self._keytext_case(w, g, cls, fi) for cls, fi in self._key_forms(w)]
         cases.append(self._keymatrix_case(w, g))
+        cases.extend(self._long_pair_cases(w, g))
         return cases
+
+    def _long_pair_cases(self, w, g):
+        """L0 only, for the tables of more than 1000 cells: same key iff same table (one cell in the middle differs /
+        the same table built twice).  Their keys also enter build_keymap and the call histories."""
+        pairs = [((69, 0), (70, 0)), ((69, 0), (69, 1)), ((71, 0), (72, 0)), ((73, 0), (74, 0))]
+        return [self._keypair_case(w, g, x, y, ['key', 'key:pair', 'key:long-table']) for x, y in pairs]
 
     def _key_rerun(self, inp):
         w, g = self._key_world()
